@@ -88,7 +88,7 @@ def native_same_kernel(A, Bm):
     A = (np.asarray(A).astype(np.int64)) % 2
     Bm = (np.asarray(Bm).astype(np.int64)) % 2
     n = A.shape[1]
-    if n <= 16:
+    if n <= 8:
         for bits in range(1 << n):
             v = np.array([(bits >> i) & 1 for i in range(n)])
             if (not (A @ v % 2).any()) != (not (Bm @ v % 2).any()):
